@@ -215,12 +215,13 @@ def _latin(k):
 
 # ------------------------------------------------------------------ a rough specifier finder
 # Used ONLY to recognise known-finding shapes and to keep them out of random streams; never to judge.
-_SPEC = re.compile(rb"%(?:\((?P<key>[^()]*)\))?(?P<flags>[-+ #0]*)(?P<width>\*|\d+)?"
+_SPEC = re.compile(rb"(?P<flags>[-+ #0]*)(?P<width>\*|\d+)?"
                    rb"(?P<dot>\.)?(?P<prec>\*|\d+)?[hlL]?(?P<type>[\x00-\xff])", re.S)
 
 
 def find_specs(b):
-    """[(match, start)] for each conversion specifier of a bytes template (Latin-1 view of a text one)"""
+    """[match] for each conversion specifier of a bytes template (Latin-1 view of a text one); the match
+    starts after the optional (nested) mapping key"""
     out, i = [], 0
     while True:
         i = b.find(b'%', i)
@@ -229,7 +230,15 @@ def find_specs(b):
         if b[i + 1:i + 2] == b'%':
             i += 2
             continue
-        m = _SPEC.match(b, i)
+        j = i + 1
+        if b[j:j + 1] == b'(':
+            depth, j = 1, j + 1
+            while j < len(b) and depth:
+                depth += (b[j] == 40) - (b[j] == 41)
+                j += 1
+            if depth:
+                return out
+        m = _SPEC.match(b, j)
         if not m or (m.group('prec') and not m.group('dot')):
             return out
         out.append(m)
@@ -449,7 +458,7 @@ def classify(req, impl_out, model_out, failure):
         if lat is None:
             return None
         specs = find_specs(lat)
-        if mode == 't':
+        if mode == 't' and not _DIGITS.search(lat):
             py = py_format(tmpl, PROBE)
             if py[0] == 'err' and py[1] is not None and "character 'b' (0x62)" in py[2] and tmpl[py[1]] == 'b':
                 # the code behaves as Python does on the same template read as bytes
